@@ -559,8 +559,9 @@ def case_run(ctx, case, scratch: C.Scratch, full: bool = True):
         rendered["md"] = C.to_md(aw_ref)
     else:
         ctx.count("md:not-representable")
+    pad = (lambda c: rng.choice(["", " ", "  "]) + c + rng.choice(["", " ", "\t"])) if rng.random() < 0.4 else None
     rendered["csv"] = C.to_csv(aw_ref, quoting=rng.choice([csv.QUOTE_ALL, csv.QUOTE_MINIMAL]),
-                               lineterminator=rng.choice(["\r\n", "\n"]))
+                               lineterminator=rng.choice(["\r\n", "\n"]), pad=pad)
     if xlsx_representable(aw_ref):
         x = C.to_xlsx(grids)
         rendered["xlsx"] = x
@@ -715,6 +716,15 @@ def explore(ctx, factor, bs):
         for i in range(n):
             case = gen_case(rng, knobs)
             case_run(ctx, case, scratch, full=(i % ctx.pick(20, 10) == 0))
+        uns = sum(v for k, v in ctx.dist.items() if k.endswith(":unsupported"))
+        fn = sum(v for k, v in ctx.dist.items() if k.startswith(("fn:", "pipe:")) and not k.startswith("fn:cell_text"))
+        ctx.notes["fragment"] = {
+            "model_answered": fn - uns, "unsupported": uns,
+            "share": round((fn - uns) / fn, 4) if fn else None,
+            "guard_md_inside": ctx.dist.get("guard:md:inside", 0), "guard_md_outside": ctx.dist.get("guard:md:outside", 0),
+            "guard_csv_inside": ctx.dist.get("guard:csv:inside", 0), "guard_csv_outside": ctx.dist.get("guard:csv:outside", 0),
+        }
+        ctx.notes["level_reached"] = "L2 for csv/md round trips and the trimming / cell-text layer; binary decoding outside the model"
     finally:
         scratch.close()
 
